@@ -26,6 +26,7 @@
 #include "galois/runtime/Network.h"
 
 #include <mpi.h>
+#include <unistd.h>
 
 #include <algorithm>
 #include <cstdarg>
@@ -206,6 +207,23 @@ struct Comm {
   }
   void barrier() { MPI_Barrier(comm); }
 };
+
+// ---- output of the ranks ---------------------------------------------------------
+// Galois prints ~20 lines per partitioned graph and a statistics dump at exit.
+// Through mpirun's stdout/stderr forwarding these go into pipes; when mpirun
+// is slow (or stopped) a full pipe blocks the rank inside write() at whatever
+// it prints next -- sessions then "hang" at arbitrary places.  Every rank
+// therefore sends its own stdout and stderr to a file of its own:
+//   <RESULT_FILE>.<pid>.log
+inline void redirect_output(const char* resultFile) {
+  char path[4096];
+  snprintf(path, sizeof path, "%s.%d.log", resultFile, (int)getpid());
+  // both in append mode: two streams on one file must not overwrite each other
+  if (!freopen(path, "a", stdout) || !freopen(path, "a", stderr))
+    _exit(3);
+  setvbuf(stdout, nullptr, _IOLBF, 0);
+  setvbuf(stderr, nullptr, _IONBF, 0);
+}
 
 // ---- reporting --------------------------------------------------------------
 inline std::string jesc(const std::string& s) {
